@@ -131,21 +131,7 @@ def probe_copy(src, cp):
     return None
 
 
-def depths(g, roots):
-    """depth of every snapshot object below the roots along own references (for rankCheck)"""
-    d = [0] * len(g.rows)
-    seen = set()
-    todo = [(g.idx(r), 0) for r in roots]
-    while todo:
-        i, k = todo.pop()
-        if i in seen:
-            continue
-        seen.add(i)
-        d[i] = k
-        for tag, j in g.rows[i][2]:
-            if tag == "own":
-                todo.append((j, k + 1))
-    return d
+depths = a04.depths
 
 
 def model_copy(ctx, drv, trees, i, case):
@@ -458,4 +444,4 @@ MANIFEST = dict(
     technique="Lean 4 proof (invariant of deepcopy with memo, bisimulation, region separation, induction over histories) + "
               "model/implementation correspondence + direct differential oracle",
 )
-READY = False
+READY = True
